@@ -198,6 +198,9 @@ def idbind_binding_demo(ctx, binp, tables):
     """Teeth: claim (wrongly) that the extension of a header WITHOUT base fee is signed; the driver must find out."""
     t = json.load(open(tables))
     t["headerSignedNoFee"] = t["headerSignedNoFee"] + ["extension"]
+    for b in t["headerBases"]:
+        if b["baseFee"] == "absent":
+            b["signed"] = b["signed"] + ["extension"]
     p = os.path.join(ctx.tmp("idbind-demo"), "tables.json")
     json.dump(t, open(p, "w"))
     out = ctx.tmp("idbind-demo-out")
